@@ -3,12 +3,13 @@
 # Copies librfn sources to a scratch dir, applies the patch, runs the check against it.
 # Prints CAUGHT / MISSED. Evidence of the real tree is preserved.
 id=$1; patch=$2; tier=${3:-quick}
+VERIF=$(cd "$(dirname "$0")/.." && pwd)
 s=/var/tmp/librfn-scratch-$$
 rm -rf $s; mkdir -p $s
 cp -r /repo/include /repo/librfn $s/ 2>/dev/null
 find $s -name '*.o' -delete; find $s -name '*.a' -delete
 ( cd $s && git init -q . && git apply --whitespace=nowarn "$patch" ) || { echo "PATCH-FAILED $patch"; rm -rf $s; exit 2; }
-cd /verif
+cd $VERIF
 [ -f evidence/$id.json ] && cp evidence/$id.json /var/tmp/ev-$$.json
 out=$(LIBRFN_REPO=$s ./check $id --tier $tier 2>&1); rc=$?
 [ -f /var/tmp/ev-$$.json ] && mv /var/tmp/ev-$$.json evidence/$id.json
